@@ -65,12 +65,6 @@ def declare_status(E):
     E.contract("Client._convert_status", argnames=["self", "msg"], returns="none", ghost={"refused": "False"},
                raises={"OSError": {"when": "True", "ghost": {"refused": "True"}},
                        "EOFError": {"when": "True", "ghost": {"refused": "True"}}})
-    E.contract(F + "_async_response::part[status]",
-               fragment=dict(first="if t == CMD_STATUS:", last="if t == CMD_STATUS:"),
-               params={"self": "obj:SFTPFile", "t": "int", "msg": "obj:Message", "num": "int"},
-               ensures={"a_refused_status_is_saved_for_the_next_operation":
-                        "implies(t == 101 and ghost('refused'), self._saved_exception is not None)"},
-               returns="none", raises={})
     E.contract(F + "_check_exception",
                ensures={"returns_only_if_nothing_was_saved": "old(self._saved_exception) is None and self._saved_exception is None"},
                returns="none",
